@@ -1,5 +1,6 @@
 import QF.Drv.Hist
 import QF.Drv.Csv
+import QF.Drv.SortAdv
 /-
 qfdriver: replays a harness transcript (stdin) through the Lean model and spec.
 Output: one line per mismatch
@@ -51,6 +52,9 @@ partial def loop (h : IO.FS.Stream) (st : DState) (lineNo : Nat) : IO DState := 
     | "csvraw" | "csvread" =>
       let (cs, ms) := csvLine st.csv toks
       let st ← emit { st with csv := cs } lineNo ms
+      loop h st (lineNo + 1)
+    | "sortadv" =>
+      let st ← emit st lineNo (sortAdvLine toks)
       loop h st (lineNo + 1)
     | _ => loop h st (lineNo + 1)
   | none => loop h st (lineNo + 1)
